@@ -108,6 +108,26 @@ def wfB (p : Pos) : Bool :=
   countPc p.b WKING == 1 && countPc p.b BKING == 1 && pieceCountsValid p.b &&
   !inCheck p.b (!p.wtm) && (fixupEP p).ep == p.ep
 
+/-- is one of the (at most two) e.p. captures onto `e` legal? -/
+def epCapLegal (p : Pos) (e : Sq) : Bool :=
+  let fy : Int := (e.y : Int) - (if p.wtm then 1 else -1)
+  [(-1 : Int), 1].any fun dx =>
+    match mkSq? ((e.x : Int) + dx) fy with
+    | some f => kind (p.at f) == 6 && legalB p { f := f, t := e, promo := 0 }
+    | none => false
+
+def epValid (p : Pos) : Bool :=
+  match p.ep with
+  | none => true
+  | some e => epCapLegal p e
+
+/-- `wfB` with the e.p. clause evaluated by `epValid` (equal to `wfB`, see `wfFast_eq`; `fixupEP` generates all legal
+    moves, which is far too slow for the inner loop of the oracle) -/
+def wfFast (p : Pos) : Bool :=
+  epShape p && castleConsistent p && validCodes p.b && noBackRankPawns p.b &&
+  countPc p.b WKING == 1 && countPc p.b BKING == 1 && pieceCountsValid p.b &&
+  !inCheck p.b (!p.wtm) && epValid p
+
 /-- **the relational specification**: `x` is the un-move of a legal move from a predecessor that counts -/
 def Pred (Q : Pos) (x : UnMv) : Prop :=
   ∃ P : Pos, wfB P = true ∧ legalB P x.m = true ∧ (fixupEP (apply P x.m)).core = Q.core ∧ x.ui = undoInfo P x.m
@@ -121,7 +141,7 @@ def UnMv.noEp (x : UnMv) : UnMv := { m := x.m, ui := { cap := x.ui.cap, castle :
 /-- `Pred` evaluated directly with the forward rules on the predecessor that `unmake` builds -/
 def predB (Q : Pos) (x : UnMv) : Bool :=
   let P := unmake Q x.m x.ui
-  pseudo P x.m && wfB P && legalB P x.m && (fixupEP (apply P x.m)).core == Q.core && undoInfo P x.m == x.ui
+  pseudo P x.m && wfFast P && legalB P x.m && (fixupEP (apply P x.m)).core == Q.core && undoInfo P x.m == x.ui
 
 /-! ## candidates -/
 
